@@ -123,12 +123,14 @@ PROPS = {
     },
     'C09': {
         'steps': [{'script': 'corr_calib.py', 'timeout': 1500, 'timeout_thorough': 6000}],
-        'required_theorems': ['C09_each_sample_applied_once', 'C09_first_sample_initialises'],
+        'required_theorems': ['C09_each_sample_applied_once', 'C09_first_sample_initialises',
+                              'C09_io_operator_copies_are_irrelevant', 'C09_resume_equals_one_pass',
+                              'C09_calibrate_is_run_samples'],
         'rule': CALIB_RULE,
         'trusted_base': COMMON_TB + GRAPH_TB + [
             "per-sample tensor min/max come from the check's own LiteRT interpreter instance (runtime oracle); the moving average is evaluated by the harness with the documented formula and compared BITWISE with the implementation"],
         'assumptions': GRAPH_ASSUME + [
-            'the resume law calibrate(calibrate(s,D1),D2) = calibrate(s,D1++D2) is checked by execution on every generated case (all splits sampled) and by correspondence K on chained multi-signature runs; it is not yet a Coq theorem',
+            'the resume law IS a theorem on the calibration model (run_samples: store-level, every split, incl. the accumulated I/O-operator copies restarting); that the implementation loads the previous result as an equal value (deep copy) is checked by correspondence K and the oracles',
             'interpreter tensor contents are runtime behaviour'],
     },
     'C10': {
